@@ -52,10 +52,12 @@ def _ldh(z3):
     return z3.Union(_d(z3), z3.Range("a", "z"), _lit(z3, "-"))
 
 
-def _hostname(z3):
-    # letters/digits/hyphens/dots, not starting with a dot, ending in a letter (the top-level label is not a number)
-    body = z3.Union(_ldh(z3), _lit(z3, "."))
-    return z3.Concat(z3.Option(z3.Concat(_ldh(z3), z3.Star(body))), z3.Range("a", "z"))
+def _hostchars(z3):
+    return z3.Star(z3.Union(_ldh(z3), _lit(z3, ".")))
+
+
+def _ends_in_letter(z3):
+    return z3.Concat(z3.Full(z3.ReSort(z3.StringSort())), z3.Range("a", "z"))
 
 
 def _canon(z3):
@@ -69,7 +71,8 @@ LANG = {
     "ip4": (r"\d+\.\d+\.\d+\.\d+", _ip4),
     # textual IPv6 address (over-approximation: hex digits and colons with at least one colon, optional dotted-quad tail)
     "ip6": (r"[0-9a-f:]*:[0-9a-f:]*(\d+\.\d+\.\d+\.\d+)?", _ip6),
-    "hostname": (r"([0-9a-z-][0-9a-z.-]*)?[a-z]", _hostname),
+    "hostchars": (r"[0-9a-z.-]*", _hostchars),
+    "ends_in_letter": (r".*[a-z]", _ends_in_letter),
 }
 # re.ASCII for \d in the python patterns
 LANG = {k: (p.replace(r"\d", "[0-9]"), b) for k, (p, b) in LANG.items()}
@@ -102,6 +105,11 @@ DM_OPTS = dict(extra_inline_roots=HTTP_ROOT, exact_search=True, strip_facts=True
 CJ = "http.cookiejar:domain_match"
 from http import cookiejar as _cookiejar
 _REAL = [_cookiejar.domain_match]     # kept in a list: vc.summary patches every module-level alias of the function
+
+
+def plain_host_name(vc, x):
+    """letters/digits/hyphens/dots, non-empty, no leading or trailing dot, ending in a letter (the top-level label is not a number)"""
+    return And(rx(vc, x, "hostchars"), len_(x) > 0, Not(startswith(x, ".")), Not(endswith(x, ".")), rx(vc, x, "ends_in_letter"))
 
 
 def K_inner(a, d):
@@ -211,11 +219,10 @@ def s_dm(vc):
     if vc.branch(a == d):
         vc.ensure("complete.equal_host", r)
     else:
-        host_like = And(rx(vc, a, "hostname"), rx(vc, d, "hostname"))
+        host_like = And(plain_host_name(vc, a), plain_host_name(vc, d))
         if lead == ".":
             for nm, x in (("host", a), ("domain", d)):
-                lemma(vc, nm + "_name_does_not_end_in_dot_digits", Implies(rx(vc, x, "hostname"), Not(ends_with_dot_digits(vc, x))))
-                lemma(vc, nm + "_name_has_no_outer_dots", Implies(rx(vc, x, "hostname"), And(len_(x) > 0, Not(startswith(x, ".")), Not(endswith(x, ".")))))
+                lemma(vc, nm + "_name_does_not_end_in_dot_digits", Implies(rx(vc, x, "ends_in_letter"), Not(ends_with_dot_digits(vc, x))))
             lemma(vc, "suffix_is_substring", Implies(endswith(a, "." + d), contains(a, "." + d)))
             vc.ensure("complete.dotted_parent_domain", Implies(And(host_like, endswith(a, "." + d)), r))
         else:
